@@ -18,7 +18,7 @@ RULE = ("(1) every file under mpn/x86_64/** is assembled alone into its own shar
         "--build=<cpu> for the x86-64 CPU families; every result is compared with the Python oracle, hence identical across configurations. "
         "distinct_nontrivial = distinct (kernel file | configuration, routine, size, content index, scalar) tuples.")
 ASSUMPTIONS = ["kernels that need an ISA extension the host lacks are recorded as not executable here (the property's own exclusion), not as violations",
-               "mod_1_1/2/3 and rsh_divrem_hensel kernels need precomputed tables and are exercised through the per-CPU whole-library rebuilds only",
+               "mod_1_1/2/3 kernels return an unnormalised two-limb residue: they are checked through the defining congruence, not byte for byte",
                "identical-to-oracle under every configuration implies identical across configurations"]
 BUDGET = {"quick": 900, "thorough": 6000}
 QUICK_VARIANTS = ["fat", "cpu-haswell"]
@@ -129,7 +129,7 @@ def spaces(tier, variant, seed):
     sp = []
     if variant == "pin":
         idx = _KIDX
-        kern = [k for k in idx["kernels"] if k["name"] in K.SIG or k["name"] in ("karaadd", "karasub", "mul_2", "addmul_2", "redc_1", "divexact_byfobm1")]
+        kern = [k for k in idx["kernels"] if k["name"] in K.SIG or k["name"] in ("karaadd", "karasub", "mul_2", "addmul_2", "redc_1", "divexact_byfobm1", "mod_1_1", "mod_1_2", "mod_1_3")]
         skipped = sorted({k["name"] for k in idx["kernels"]} - {k["name"] for k in kern})
         N = 40 if quick else 72
         handles = {}
@@ -171,6 +171,12 @@ def spaces(tier, variant, seed):
                 for n in range(1, min(N, 32) + 1):
                     for k in range(10):
                         yield (i, (("n", n),), k, 0, ())
+            elif name in ("mod_1_1", "mod_1_2", "mod_1_3"):
+                kk = int(name[-1])
+                for n in range(kk + 2, N + 1):
+                    for k in range(12):
+                        for d in (1, 2, 3, 10, 0xFFFFFFFF, (1 << 32) + 1, (1 << 61) - 1, (1 << 62) - 57, ((1 << 64) // (kk + 1)) + 1, ((1 << 64) // (kk + 1)) - 3):
+                            yield (i, (("n", n),), k, 0, (("d", d),))
             elif name == "divexact_byfobm1":
                 for n in range(1, N + 1):
                     for k in range(10):
@@ -285,6 +291,29 @@ def spaces(tier, variant, seed):
                 if Ar.get(omp, n) != m or not Ar.untouched(end, [(ocp, n), (otp, 2 * n), (omp, n)]):
                     R.fail(tag, "redc_1 n=%d: modulus modified or wrote outside" % n)
                 return (i, n, k)
+            if name in ("mod_1_1", "mod_1_2", "mod_1_3"):
+                kk = int(name[-1])
+                d = sc["d"]
+                if (kk + 1) * (d - 1) > B_:
+                    return None
+                x = K.contents(n, k)
+                db = 0
+                for j in range(kk + 1):
+                    db |= pow(B_, j + 1, d) << (64 * j)
+                orr, ox, odb = G_, 2 * G_ + 2, 3 * G_ + 2 + n
+                end = odb + kk + 1 + G_
+                Ar.reset(end)
+                Ar.put(ox, x, n)
+                Ar.put(odb, db, kk + 1)
+                f = getattr(kh(i), "__gmpn_" + name)
+                f.restype, f.argtypes = None, [c_void_p, c_void_p, c_long, c_void_p]
+                f(Ar.addr(orr), Ar.addr(ox), n, Ar.addr(odb))
+                got = Ar.get(orr, 2)
+                if got % d != x % d:
+                    R.fail(tag, "%s n=%d d=%d x=%x: result %x is not congruent to x mod d" % (name, n, d, x, got))
+                if Ar.get(ox, n) != x or Ar.get(odb, kk + 1) != db or not Ar.untouched(end, [(orr, 2), (ox, n), (odb, kk + 1)]):
+                    R.fail(tag, "%s n=%d: source modified or wrote outside rem[0..1]" % (name, n))
+                return (i, n, k, d)
             if name == "divexact_byfobm1":
                 fdiv = sc["f"]
                 if M_ % fdiv:
